@@ -248,8 +248,19 @@ static void record(uint64_t seed, long long n) {
       if (!(backend >= 3 && fabs(v[nv - 2].lat) == 90)) {
         p->TestEdge(azi, s, false, true, pe, ae);
         p->AddEdge(azi, s); p->Compute(false, true, pf, af); }
+      // test[6]: one unit in the last place of a double at the size of the largest partial area sum the tentative edge can involve
+      // (units of 1e-4 m^2, rounded up), from the inputs only: TestEdge is documented to agree "to within ordinary round-off of the
+      // accumulated sums", and the area under a rhumb edge that winds w times around a pole is about w times the ellipsoid's area
+      // (bound: (nv + 2) area0 / 2 for the sides plus c2 |dlambda|, |dlambda| <= s |sin azi| / (b' cos(phi')) for a rhumb edge, phi' the
+      // highest latitude it can reach, b' the smaller semi-axis; <= 2 pi for a geodesic edge of at most 2000 km)
+      long double bmin = fminl((long double)a, (long double)a * (1 - (long double)f)), dlam = 2 * PIL;
+      if (backend >= 3) {
+        long double phi = fabsl((long double)v[nv - 2].lat) * PIL / 180, reach = fabsl(cosl(azi * PIL / 180)) * s / bmin * 1.01L + 1e-9L;
+        long double phif = fminl(phi + reach, PIL / 2 * (1 - 1e-9L));
+        dlam = fmaxl(dlam, s * fabsl(sinl(azi * PIL / 180)) / (bmin * cosl(phif))); }
+      long double bound = (nv + 2) * (long double)area0 / 2 + (long double)area0 / (4 * PIL) * dlam;
       r.li("test", {q4(remainderl((long double)at - As, area0)), qn(pt - P0), (long long)(nn == (unsigned) nv && n1 == (unsigned)(nv - 1)),
-                    q4(remainderl((long double)ae - af, area0)), qn(pe - pf)}); }
+                    q4(remainderl((long double)ae - af, area0)), qn(pe - pf), vt::q1(bound * 0x1p-52L * 1e4L + 0.5L, 1.0L)}); }
     // the other geodesic back end gives the same polygon; the two rhumb back ends (series / exact option) likewise
     { int b2 = backend == 3 ? 4 : backend == 4 ? 3 : (backend + 1) % 3; double p, ar; area_of(b2, a, f, v, false, true, p, ar);
       r.li("xb", {q4(remainderl((long double)ar - As, area0)), qn(p - P0)}); }
